@@ -57,7 +57,7 @@ func VC12ReqTop(n, d0 int) {
 	vAssert("returned", true)
 }
 
-// short memories: a DumbMemory / DumbIO of arbitrary length (0..65536 / 0..256)
+// short memories: a DumbMemory / DumbIO of arbitrary length (0..65536 / 0..65536)
 // in which the encoding fits; data accesses may fall beyond the end.
 func VC12Dumb(tbl, op int) {
 	var pre States
@@ -65,7 +65,7 @@ func VC12Dumb(tbl, op int) {
 	n := vSymLen("memlen")
 	vAssume(vAnd(n >= 0, n <= 65536))
 	m := vSymLen("iolen")
-	vAssume(vAnd(m >= 0, m <= 256))
+	vAssume(vAnd(m >= 0, m <= 65536))
 	mem := DumbMemory(vBytesN("dm", n))
 	io := DumbIO(vBytesN("dio", m))
 	vAssume(int(pre.PC)+4 <= n)
